@@ -18,6 +18,7 @@ from . import C05
 EXPLANATION = ("The poll / pop functions are loop-free once the queue API is treated as events: all their paths are enumerated and every "
                "path that delivers (or consumes) a completion is required to contain the re-posting add of the slot selected by the "
                "peeked token; stocking loops are found as queue adds inside CFG cycles of the constructors.")
+CONFIGS = ['def', 'alloc', 'def-rel']    # these drivers need the `alloc` feature
 FLOORS = {'deliver_paths': 3, 'consume_paths': 3, 'stocking_loops': 2, 'users': 3}
 
 
